@@ -460,7 +460,11 @@ def normalise_spelling(db):
     return n
 
 
-def load(repo='/repo', defines=()):
+DEFAULT_DEFINES = ()          # set by the runner for the extra preprocessor configurations of the thorough tier
+
+
+def load(repo='/repo', defines=None):
+    defines = DEFAULT_DEFINES if defines is None else defines
     key = (repo, tuple(defines))
     if key not in _cache:
         t = time.time()
